@@ -129,8 +129,10 @@ STUBS = {
 def const_shapes(w: World, tier):
     """(name, builder(gen) -> Constant Adt)"""
     from props.c04 import Gen
-    kinds = ["int", "bytes", "str", "unit", "bool", "list:int", "list:bytes", "list:list:int", "list:pair:int,bool", "pair:int,bytes",
-             "pair:list:int,pair:bool,unit", "list:data", "data"]
+    # every leaf type at the top level, as a list element, as either pair component and two levels deep
+    kinds = ["int", "bytes", "str", "unit", "bool", "list:int", "list:bytes", "list:str", "list:bool", "list:unit", "list:list:int", "list:list:str",
+             "list:pair:int,bool", "list:pair:str,bytes", "pair:int,bytes", "pair:str,bool", "pair:unit,data", "pair:data,str",
+             "pair:list:int,pair:bool,unit", "pair:list:str,pair:bytes,str", "list:data", "data"]
     out = []
     for k in kinds:
         lens = [0, 2] if k.startswith("list:") else [None]
